@@ -383,10 +383,12 @@ fn child(case: &str) -> ! {
         };
         let el = now_ns();
         log("return".to_string());
-        if c_flavor != 0 {
-            // let the independent subscriber (another task, maybe on another thread) log what it received
-            tokio::time::sleep(Duration::from_millis(4)).await;
-        }
+        // let the independent subscriber (another task, maybe on another thread) log what it received; under
+        // paused time too: the run task and the subscriber are woken by the same broadcast and the run task may be
+        // polled first (virtual time only advances once every ready task has been polled, so the subscriber logs
+        // at the instant of the request)
+        let _ = c_flavor;
+        tokio::time::sleep(Duration::from_millis(4)).await;
         let out = vec![
             format!("status {}", status_tok(&status)),
             format!("elapsed {}", el),
@@ -839,6 +841,25 @@ impl Family for C13 {
                     evs.push(Ev::Dlv(tap.and_then(|m| machine_of_mac(&c, m))));
                 }
                 _ => {}
+            }
+        }
+        // The run task and the subscriber are woken by the same broadcast; when the run task is polled first the
+        // subscriber logs after `return`, but (virtual time) at the very instant of the request: that is still
+        // the observation of a request made before the return.
+        if paused && !evs.iter().any(|e| matches!(e, Ev::Seen(..))) {
+            let mut after = false;
+            for (t, text) in &r.events {
+                if text == "return" {
+                    after = true;
+                } else if after {
+                    if let Some(s) = text.strip_prefix("seen ") {
+                        if *t == elapsed {
+                            stat("subscriber logged after the return, same instant");
+                            evs.push(Ev::Seen(s.to_string(), *t));
+                        }
+                        break;
+                    }
+                }
             }
         }
         // ---- impl line (events after the last release are irrelevant to the barrier part: frames are dropped there)
